@@ -186,7 +186,11 @@ fn gen_config(active_redirection: bool) -> ServerProxyConfig {
 type Handler = ForwardHandler<NoClientFactory, StoreConnFactory>;
 
 fn gen_handler(db: Db, log: Log) -> Handler {
-    let config = Arc::new(gen_config(false));
+    gen_handler_with(db, log, false)
+}
+
+fn gen_handler_with(db: Db, log: Log, active_redirection: bool) -> Handler {
+    let config = Arc::new(gen_config(active_redirection));
     let meta_map = Arc::new(ArcSwap::new(Arc::new(MetaMap::empty())));
     let (stopped, _r) = mpsc::unbounded();
     ForwardHandler::new(
@@ -331,7 +335,7 @@ async fn verif_replay_request_bounded() {
     };
     let db: Db = Default::default();
     let log: Log = Default::default();
-    let handler = gen_handler(db.clone(), log.clone());
+    let handler = gen_handler_with(db.clone(), log.clone(), spec["active"].as_bool().unwrap_or(false));
     setup(&handler, "Disabled").await;
     let cmd: Vec<Vec<u8>> = serde_json::from_value(spec["cmd"].clone()).expect("cmd");
     let max_ms = spec["max_ms"].as_u64().unwrap_or(5000);
